@@ -135,7 +135,7 @@ func genAdv(prop string) func(rt *rapid.T) interface{} {
 			kinds = append(kinds, advHTTP...)
 			kinds = append(kinds, advCipher...)
 			kinds = append(kinds, advCipher...)
-			kinds = append(kinds, "ps-m1", "ps-m1", "ps-m3-wrong", "ps-m3-a0", "ps-m3-a0-pubproof", "ps-m3-a0-pubproof", "ps-m3-longA", "ps-m3-badprooflen", "ps-m5-weak", "ps-m5-weak", "ps-m5-zero", "ps-m5-nilk", "ps-m5-random", "ps-m5-short", "pv-m1", "pv-m1", "pv-m1-short", "pv-m3-wrongkey", "pv-m3-unknown", "pv-m3-self", "pv-m3-self", "pv-m3-stale", "pv-m3-replay", "pv-m3-wrongseal", "pv-m3-short", "pv-m3-badtlv")
+			kinds = append(kinds, "ps-degenerate-chain", "ps-degenerate-chain", "ps-degenerate-chain", "ps-m1", "ps-m1", "ps-m3-wrong", "ps-m3-a0", "ps-m3-a0-pubproof", "ps-m3-a0-pubproof", "ps-m3-longA", "ps-m3-badprooflen", "ps-m5-weak", "ps-m5-weak", "ps-m5-zero", "ps-m5-nilk", "ps-m5-random", "ps-m5-short", "pv-m1", "pv-m1", "pv-m1-short", "pv-m3-wrongkey", "pv-m3-unknown", "pv-m3-self", "pv-m3-self", "pv-m3-stale", "pv-m3-replay", "pv-m3-wrongseal", "pv-m3-short", "pv-m3-badtlv")
 		case "C02":
 			sc.KnowsCode = rapid.IntRange(0, 2).Draw(rt, "code") != 0
 			sc.Legit = rapid.Bool().Draw(rt, "legit")
@@ -143,7 +143,7 @@ func genAdv(prop string) func(rt *rapid.T) interface{} {
 			sc.LegitOps = 0
 			nconn = rapid.IntRange(1, 2).Draw(rt, "nconn")
 			kinds = append(kinds, advSetup...)
-			kinds = append(kinds, "ps-m1", "ps-m1", "ps-m3-right", "ps-m3-right", "ps-m5-genuine", "ps-m5-zero", "ps-m5-nilk", "ps-m3-a0", "ps-m5-weak", "ps-m5-weak")
+			kinds = append(kinds, "ps-degenerate-chain", "ps-degenerate-chain", "ps-degenerate-chain", "ps-m1", "ps-m1", "ps-m3-right", "ps-m3-right", "ps-m5-genuine", "ps-m5-zero", "ps-m5-nilk", "ps-m3-a0", "ps-m5-weak", "ps-m5-weak")
 		case "C03":
 			sc.KnowsKey = rapid.IntRange(0, 2).Draw(rt, "key") != 0
 			if rapid.IntRange(0, 4).Draw(rt, "unpaired") == 0 {
@@ -523,6 +523,21 @@ func (aw *advWorld) do(p *peerConn, op AdvOp) *advResult {
 		if aw.on("C02") && !right && r.TLV != nil && (len(r.TLV[ref.TagProof]) > 0 || len(r.TLV[ref.TagEncrypted]) > 0) {
 			aw.violate("proof-for-wrong-m3", "the answer to a verify request without a valid proof carries a proof / encrypted data")
 		}
+	case "ps-degenerate-chain":
+		// the whole attack in one go: start, a verify request that needs no setup code, the key
+		// exchange under the key that follows from it
+		aw.do(p, AdvOp{Conn: p.slot, Kind: "ps-m1"})
+		m3 := "ps-m3-a0-pubproof"
+		if op.Arg%5 == 4 {
+			m3 = []string{"ps-m3-longA", "ps-m3-badprooflen", "ps-m3-a0", "ps-m3-noA"}[(op.Arg/5)%4]
+		}
+		aw.do(p, AdvOp{Conn: p.slot, Kind: m3, Arg: op.Arg})
+		m5 := AdvOp{Conn: p.slot, Kind: "ps-m5-weak", Arg: 0}
+		if m3 != "ps-m3-a0-pubproof" {
+			m5 = AdvOp{Conn: p.slot, Kind: []string{"ps-m5-zero", "ps-m5-nilk", "ps-m5-weak"}[(op.Arg/20)%3], Arg: 1}
+		}
+		w.Sim.Count("probe.degenerate_chain")
+		return aw.do(p, m5)
 	case "ps-m3-a0-pubproof", "ps-m3-longA", "ps-m3-badprooflen":
 		// verify requests a peer without the setup code can build from public values only
 		items := []ref.TLV{{Tag: ref.TagState, Val: []byte{3}}}
